@@ -136,8 +136,13 @@ def run_automaton(func, init, step, edge=None, start=None, start_idx=0, limit=20
     (flag_vars): an edge of a branch on such a flag is taken only when the flag's value on that path allows it (`bool more = true;
     while (more) { ... more = false; }` is left only after the assignment)."""
     flags = flag_vars(func)
-    if not flags:
+    # a result code carried out of an expanded helper (`return {Status::X, n};` ... `switch (status)`): the enumerators the helper's
+    # return on this path mentions decide which case labels of a following switch over the same enumeration can be entered
+    has_iret_enum = any(e["k"] == "iret" and any(r.startswith("e:") for r in (e.get("refs") or [])) for b in func.blocks.values() for e in b.elems) and \
+        any((b.term or {}).get("k") == "switch" for b in func.blocks.values())
+    if not flags and not has_iret_enum:
         return _run_automaton(func, init, step, edge, start, start_idx, limit)
+    import re as _re
 
     def step2(st, ev):
         us, fl = st
@@ -149,6 +154,16 @@ def run_automaton(func, init, step, edge=None, start=None, start_idx=0, limit=20
             v_ = ev["lhs"]["v"]
             c = ev.get("const")
             fl = tuple(sorted([(v, x) for v, x in fl if v != v_] + ([(v_, c)] if isinstance(c, bool) else [])))
+        elif k == "iret" and has_iret_enum:
+            ens = [r_[2:] for r_ in (ev.get("refs") or []) if r_.startswith("e:")]
+            if ens:
+                m_ = _re.search(r"(\w+)\s*\?\s*([\w:]+)\s*:\s*([\w:]+)", ev.get("t") or "")
+                if m_ and len(ens) >= 2:
+                    known = {v.split("@")[0]: x for v, x in fl if not v.startswith("#")}
+                    if m_.group(1) in known:
+                        drop = m_.group(3) if known[m_.group(1)] else m_.group(2)
+                        ens = [e_ for e_ in ens if not e_.endswith("::" + drop.rsplit("::", 1)[-1])] or ens
+                fl = tuple(sorted([(v, x) for v, x in fl if v != "#enum"] + [("#enum", tuple(sorted(ens)))]))
         r = step(us, ev)
         if r is None:
             return None
@@ -169,6 +184,14 @@ def run_automaton(func, init, step, edge=None, start=None, start_idx=0, limit=20
                     # not known yet (initialised from an expression): taking this edge tells what it is, and it stays that until it
                     # is written again -- a later test of the same local goes the same way
                     fl = tuple(sorted(list(fl) + [(v_, (k == 0) != bool(t.get("neg")))]))
+        if t.get("k") == "switch" and has_iret_enum:
+            ens = dict(fl).get("#enum")
+            lab = (func.blocks[sid].label or {}) if sid in func.blocks else {}
+            lc = lab.get("const")
+            if ens and lab.get("k") == "case" and isinstance(lc, str) and lc.startswith("e:"):
+                same_enum = [e_ for e_ in ens if e_.rsplit("::", 1)[0] == lc[2:].rsplit("::", 1)[0]]
+                if same_enum and lc[2:] not in same_enum:
+                    return None
         if edge is not None:
             us = edge(us, blk, k, sid)
             if us is None:
